@@ -565,9 +565,14 @@ INVALID_RULES = ['dup-city', 'dup-link-same', 'dup-link-reverse', 'dangling-link
                  'eqpt-two-rows-ila', 'roadms-id-count', 'missing-header']
 
 
+def invalid_model():
+    """a valid model plus exactly one violation of a documented sanity rule; one stratum per rule (see pbt.runner.search), so that every rule gets an
+    equal share of the examples whatever the distribution of Hypothesis' choices"""
+    return [_invalid_model(r) for r in INVALID_RULES]
+
+
 @st.composite
-def invalid_model(draw):
-    """a valid model plus exactly one violation of a documented sanity rule"""
+def _invalid_model(draw, wanted):
     m = draw(valid_model(services=False))
     names = [s['city'] for s in m['sites']]
     nb = neighbours(m)
@@ -577,7 +582,8 @@ def invalid_model(draw):
     ilas = [c for c in names if eff[c] == 'ILA']
     rules = [r for r in INVALID_RULES
              if not (r == 'eqpt-missing-link' and not non_adjacent) and not (r == 'eqpt-two-rows-ila' and not ilas)]
-    rule = rules[draw(st.integers(0, 2 ** 24)) % len(rules)]      # de-biased: sampled_from favours the first entries
+    # the wanted rule when the model allows it (a complete graph has no missing link, a ROADM-only model no ILA)
+    rule = wanted if wanted in rules else rules[draw(st.integers(0, len(rules) - 1))]
     detail = rule
     unknown = draw(st.sampled_from(['toto', 'Paris', 'Corlay2']))
 
